@@ -389,17 +389,27 @@ class World:
         while True:
             if len(sock.rx_arrived) >= need or sock.rx_fin == 2 or sock.rx_rst == 2:
                 return
+            if self.driver_block_hook is not None:
+                # a scripted peer owns the decision: True = progress made, "expire" = let the
+                # deadline pass, False = nothing more will ever come
+                r = self.driver_block_hook(sock, need, deadline)
+                spins += 1
+                if spins > 100000:
+                    raise SimStall("driver block hook makes no progress")
+                if r == "expire" or (not r and deadline is not None):
+                    if deadline is None:
+                        raise SimStall("block hook asked to expire a wait without deadline")
+                    if self.clock.now < deadline:
+                        self.clock.advance(deadline - self.clock.now)
+                    return
+                if not r:
+                    raise SimStall("driver blocked for ever: the scripted peer has nothing more to send")
+                continue
             if sock.rx_inflight or sock.rx_fin == 1 or sock.rx_rst == 1:
-                if self.driver_block_hook is not None:
-                    self.driver_block_hook(sock, need)
-                else:
-                    sock.arrive()
+                sock.arrive()
                 continue
             if deadline is not None and self.clock.now >= deadline:
                 return
-            if self.driver_block_hook is not None:
-                if self.driver_block_hook(sock, need):
-                    continue
             if self.mgr_task is None or self.mgr_task.done:
                 if deadline is None:
                     raise SimStall("driver blocked with no manager")
